@@ -8,10 +8,11 @@ ROOT_NAMES = ["pk", "pkg2", "lib"]
 @st.composite
 def _tree(draw, prefix, depth, files, dirs, marker):
     """Populate `files` with marker modules below directory `prefix` (relative posix path)."""
-    names = draw(st.lists(st.sampled_from(NODE_NAMES), min_size=1, max_size=3, unique=True))
+    # depth 1..4 below a root: packages three deep are needed for `from ... import x` to stay inside the top package
+    names = draw(st.lists(st.sampled_from(NODE_NAMES), min_size=1, max_size=3 if depth < 3 else 2, unique=True))
     for n in names:
         kind = draw(st.sampled_from(["module", "module", "package", "package", "namespace", "both"]))
-        if depth >= 3 and kind != "module":
+        if depth >= 4 and kind != "module":
             kind = "module"
         if kind in ("module", "both"):
             files["%s/%s.py" % (prefix, n)] = marker("%s/%s.py" % (prefix, n))
